@@ -1,4 +1,4 @@
-CONSTANTS P = 43  A = 0  B = 7  Gx = 2  Gy = 12  N = 31  Iterated = TRUE
+CONSTANTS P = 43  A = 0  B = 7  Gx = 2  Gy = 12  N = 31  Scope = "full"  Iterated = TRUE
 SPECIFICATION Spec
 INVARIANT GroupLaw
 CHECK_DEADLOCK FALSE
